@@ -333,8 +333,23 @@ def run_check(mod, tier, master_seed, jobs=None, budget_s=None, n_max=None):
         seed, vd, variant = sorted(lst, key=lambda x: x[0])[0]
         res = shrink(mod, seed, vd, tier, variant, budget_s=float(os.environ.get("VERIF_SHRINK_S", "40")))
         if res is None:
-            print("HARNESS-ERROR violation %s (seed %d) did not reproduce in-process: nondeterminism" % (sig, seed))
-            return 2
+            # Not reproducible in THIS process. One legitimate cause: sanitizer reports (C04) are
+            # de-duplicated per process by the ASan runtime in recover mode. Fall back to the
+            # unminimised choice log of the seed and let the fresh-interpreter replay decide.
+            again = mod.run_one(seed, tier=tier, variant=variant)
+            again.violation = vd
+            path = write_replay(mod, seed, tier, variant, again, False, 0)
+            ok, log = verify_replay(path)
+            if not ok:
+                print("HARNESS-ERROR violation %s (seed %d) reproduced neither in-process nor in a fresh "
+                      "interpreter: nondeterminism\n%s" % (sig, seed, log[-1500:]))
+                return 2
+            print("  %s: %s" % (sig, vd["message"][:600]))
+            print("VIOLATION property=%s replay=%s" % (mod.PROPERTY, path))
+            reported.append({"signature": sig, "seed": seed, "replay": path, "count": len(lst),
+                             "message": vd["message"][:600], "minimised": False})
+            exit_code = 1
+            continue
         best, tries = res
         path = write_replay(mod, seed, tier, variant, best, True, tries)
         ok, log = verify_replay(path)
